@@ -22,8 +22,8 @@ theorem readFooter_clean (w : World) (file : Nat) (img : Bytes) (f : Footer)
     simp only [List.length_drop]; omega
   unfold Table.readFooter
   rw [if_neg (by rw [hoff]; omega), hoff]
-  show ∃ w', M.bind' (readAt file (img.length - 48) 48) _ w = (w', .ok f) ∧ _
-  unfold M.bind' readAt
+  show ∃ w', M.bind' (readBytes file ⟨img.length - 48, 48⟩) _ w = (w', .ok f) ∧ _
+  unfold M.bind' readBytes readAt
   simp only [hcw.sched, hcw.file, hnormal, htake, Nat.sub_self, List.replicate_zero, List.append_nil, hf]
   exact ⟨_, rfl, ⟨hcw.file, rfl⟩, rfl, rfl, rfl⟩
 
